@@ -2716,6 +2716,15 @@ class Engine:
             if tb is None:
                 raise Unsupported("dict comprehension over a solution: value is not a table lookup")
             return SO.mapped(self, src, tb[0], tb[1], "dict")
+        if isinstance(src, ItemsView) and src.mode == "items" and src.ver.ksort == T.Int and src.ver.vsort == T.Label \
+                and isinstance(g.target, ast.Tuple) and len(g.target.elts) == 2 \
+                and all(isinstance(e, ast.Name) for e in g.target.elts) and isinstance(n.key, ast.Name) \
+                and n.key.id == g.target.elts[1].id and isinstance(n.value, ast.Subscript) \
+                and isinstance(n.value.slice, ast.Name) and n.value.slice.id == g.target.elts[0].id:
+            sol = self.eval(n.value.value, fr)
+            if isinstance(sol, SO.SolVal) and sol.view is None:
+                # {v: solution[i] for i, v in reverse_mapping.items()}
+                return SO.relabelled_items(self, src.owner if src.owner is not None else src.ver, sol)
         isrange = isinstance(src, range) or (isinstance(src, SeqIter) and src.kind == "range" and len(src.data) == 1)
         if isrange and isinstance(g.target, ast.Name) and isinstance(n.key, ast.Subscript) and \
                 isinstance(n.value, ast.Subscript) and isinstance(n.key.slice, ast.Name) and \
